@@ -60,4 +60,41 @@ theorem float01_bits32_is_translated (w1 w2 : BitVec 64) :
   rw [replace_exponent_f32_translated _ _ (by rw [he]; exact hc), he]
   rfl
 
+/-- `u64::leading_zeros` as the translated `sample` receives it: the model's count, as a `u32` -/
+def lz64 (w : BitVec 64) : BitVec 32 := BitVec.ofNat 32 (clz64 w)
+
+theorem clz64_le (w : BitVec 64) : clz64 w ≤ 64 := by
+  unfold clz64; split <;> omega
+
+/-- **`Float01::sample` (f64) as translated is the model's `Float01`**: the FIRST draw is a `next_u64` whose leading zeros give the exponent
+`1022 - lz`, the SECOND a `next_f64` whose mantissa is kept - draw order, constants and the packing are the code's -/
+theorem float01_sample64_translated (w1 w2 : BitVec 64) :
+    Scalar.float01.sample_f64_draws = ["next_u64", "next_f64"] ∧
+    Float01.bits64 w1 w2 = (Scalar.float01.sample_f64 lz64 w1 (rngF64 w2)).toNat := by
+  refine ⟨rfl, ?_⟩
+  rw [float01_bits64_is_translated]
+  have h := clz64_le w1
+  have e : (1022#32 - lz64 w1) = BitVec.ofNat 32 (1022 - clz64 w1) := by
+    apply BitVec.eq_of_toNat_eq
+    unfold lz64
+    rw [BitVec.toNat_sub_of_le (by rw [BitVec.le_def]; simp only [BitVec.toNat_ofNat]; omega)]
+    simp only [BitVec.toNat_ofNat]; omega
+  unfold Scalar.float01.sample_f64
+  simp only [e]
+
+/-- the same for f32: a `next_u64` for the exponent `126 - lz`, then a `next_f32` for the mantissa -/
+theorem float01_sample32_translated (w1 w2 : BitVec 64) :
+    Scalar.float01.sample_f32_draws = ["next_u64", "next_f32"] ∧
+    Float01.bits32 w1 w2 = (Scalar.float01.sample_f32 lz64 w1 (rngF32 (w2.setWidth 32))).toNat := by
+  refine ⟨rfl, ?_⟩
+  rw [float01_bits32_is_translated]
+  have h := clz64_le w1
+  have e : (126#32 - lz64 w1) = BitVec.ofNat 32 (126 - clz64 w1) := by
+    apply BitVec.eq_of_toNat_eq
+    unfold lz64
+    rw [BitVec.toNat_sub_of_le (by rw [BitVec.le_def]; simp only [BitVec.toNat_ofNat]; omega)]
+    simp only [BitVec.toNat_ofNat]; omega
+  unfold Scalar.float01.sample_f32
+  simp only [e]
+
 end Urandom.C11
